@@ -167,6 +167,7 @@ def rename_is_final_and_last(ctx):
     renaming task closes the file first, is built only by get_final_io_task with
     is_final=True, and runs on the IO executor behind every write."""
     allowed = {'download.IORenameFileTask._main', '__init__.S3Transfer.download_file', 'processpool.GetObjectWorker._do_file_rename',
+               'processpool.GetObjectWorker._finalize_download',  # the finaliser itself, when its rename helper is written in place (C06.d judges its shape)
                'crt.RenameTempFileHandler.__call__', 'utils.OSUtils.rename_file', '__init__.OSUtils.rename_file'}
     n = 0
     for f, c, r in q.call_index(ctx):
@@ -287,25 +288,31 @@ def both_outcomes_handled(ctx):
     ok = len(rs) == 1 and not q.guards(rs[0]) and bool(xw) and xg.all_dominate(xw, xg.nodes_of(rs[0]), xg.NORMAL) \
         and isinstance(q.in_loop(rs[0]).target, ast.Name) and norm(rs[0].func.value) == q.in_loop(rs[0]).target.id
     ctx.ob(f, 'results of the finished futures are retrieved (errors propagate)', ok, 'exceptions of the controller futures must be re-raised')
-    # process pool
-    f = ctx.func('processpool.GetObjectWorker._finalize_download')
-    g = ctx.cfg(f)
-    rm = [c for c in own_calls(f.node) if (dotted(c.func) or '').endswith('remove_file')]
-    rn = [c for c in own_calls(f.node) if (dotted(c.func) or '').endswith('_do_file_rename')]
+    # process pool: judged on the fully expanded _finalize_download (the rename helper inlined, however it is cut)
+    xp = ctx.expanded()
+    f = xp.func('processpool.GetObjectWorker._finalize_download')
+    g = xp.cfg(f)
+    exc_test = 'self._transfer_monitor.get_exception(transfer_id)'
+    rn = [c for c in own_calls(f.node) if (dotted(c.func) or '').endswith('rename_file')]
+    rm_all = [c for c in own_calls(f.node) if (dotted(c.func) or '').endswith('remove_file')]
+    rm = [c for c in rm_all if q.in_handler(c) is None]          # the failed-download branch
+    rm_h = [c for c in rm_all if q.in_handler(c) is not None]    # cleanup after a failing rename
     nd = [c for c in own_calls(f.node) if (dotted(c.func) or '').endswith('notify_done')]
-    ok = len(rm) == 1 and len(rn) == 1 and q.guards_imply(q.guards(rm[0]), 'self._transfer_monitor.get_exception(transfer_id)') \
-        and q.guards_imply(q.guards(rn[0]), 'not self._transfer_monitor.get_exception(transfer_id)') and norm(rm[0].args[0]) == 'temp_filename'
-    ctx.ob(f, 'exception => remove_file(temp) else rename', ok, 'finalisation must remove the temp file exactly when the download failed, otherwise publish it')
+
+    def _gi(c, want):
+        gs = q.guards(c)
+        # the recorded exception may be held in a local that is only tested (flag substitution handles that) or tested directly
+        return q.guards_imply(gs, want)
+    ok = len(rm) == 1 and len(rn) == 1 and _gi(rm[0], exc_test) and _gi(rn[0], f'not {exc_test}') and norm(rm[0].args[0]) == 'temp_filename'
+    ctx.ob(f.qualname, 'exception => remove_file(temp) else rename', ok, 'finalisation must remove the temp file exactly when the download failed, otherwise publish it', node=f.node)
     ndn = [x for c in nd for x in g.nodes_of(c)]
-    ctx.ob(f, 'notify_done(transfer_id) after publish/cleanup on every path', bool(ndn) and g.must_pass([g.entry], ndn, [g.exit], g.NORMAL)
-           and not (g.reach(ndn, labels=g.NORMAL) & set(x for c in rm + rn for x in g.nodes_of(c))), 'done must be signalled only after the file is in place or removed')
-    f = ctx.func('processpool.GetObjectWorker._do_file_rename')
-    hs = [h for h in own_nodes(f.node) if isinstance(h, ast.ExceptHandler)]
+    ctx.ob(f.qualname, 'notify_done(transfer_id) after publish/cleanup on every path', bool(ndn) and g.must_pass([g.entry], ndn, [g.exit], g.NORMAL)
+           and not (g.reach(ndn, labels=g.NORMAL) & set(x for c in rm_all + rn for x in g.nodes_of(c))), 'done must be signalled only after the file is in place or removed', node=f.node)
+    hs = [h for h in own_nodes(f.node) if isinstance(h, ast.ExceptHandler) and rn and any(field == 'body' and t is h._parent for t, field in q.enclosing_trys(rn[0]))]
     ok = bool(hs) and any((dotted(c.func) or '').endswith('notify_exception') for c in ast.walk(hs[0]) if isinstance(c, ast.Call)) \
-        and any((dotted(c.func) or '').endswith('remove_file') and norm(c.args[0]) == 'temp_filename' for c in ast.walk(hs[0]) if isinstance(c, ast.Call))
-    rc = [c for c in own_calls(f.node) if (dotted(c.func) or '').endswith('rename_file')]
-    ctx.ob(f, 'rename failure => notify_exception + remove_file(temp)', ok and len(rc) == 1 and norm(rc[0].args[0]) == 'temp_filename' and norm(rc[0].args[1]) == 'filename',
-           'a failing rename must be reported and must not leave the temp file')
+        and any(q.in_handler(c) is hs[0] and norm(c.args[0]) == 'temp_filename' for c in rm_h)
+    ctx.ob(f.qualname, 'rename failure => notify_exception + remove_file(temp)', ok and len(rn) == 1 and norm(rn[0].args[0]) == 'temp_filename' and norm(rn[0].args[1]) == 'filename',
+           'a failing rename must be reported and must not leave the temp file', node=f.node)
     # CRT
     f = ctx.func('crt.RenameTempFileHandler.__call__')
     rm = [c for c in own_calls(f.node) if (dotted(c.func) or '').endswith('remove_file')]
